@@ -168,3 +168,28 @@ claim("C37", "TLC (Sweep tallies -> Rescale, file mode) computes the exact one-i
       "midpoints",
       "bounded TSGen scope exact; real calls decided by TLC on rank / interning abstraction",
       TB + "; AssertionErrors judged only where the specification decides them")
+
+claim("C06", "TLC model checking of spec/Relational.tla (Units machine: the statement's recipe is the complete change of "
+      "time unit per method, kernel arguments dimensionless and value-preserving, exponents 1 / 2 proved on the "
+      "forced-pass and grid-moment sub-models) + replay of the TLC-emitted recipe into real date() calls + TLC trace "
+      "validation (spec/RelationalTrace.tla) of every metamorphic pair",
+      "every pair of real calls decided by TLC from named predicates (close12 for powers of two, 1e-4 / 1e-3 for "
+      "other factors, arg-max near-ties discarded)",
+      TB + "; mutation-level outputs compared in canonical order")
+claim("C07", "as C06 with the 'genome' kind of spec/Relational.tla: exponent 0; recipe = all genomic coordinates x c and "
+      "mutation rate / c; pairs of real calls validated by spec/RelationalTrace.tla",
+      "every pair of real calls decided by TLC (close12 for powers of two, loose class otherwise)",
+      TB)
+claim("C08", "TLC model checking of spec/Relational.tla (Irr machine: all 2^11 subsets of the perturbation menu x 4 option "
+      "records over the projection Inputs; controls shown to change Inputs) + replay of the emitted subsets on real "
+      "inputs + spec/RelationalTrace.tla (TLC recomputes the verdict; outputs close12, observed bit-identical)",
+      "exhaustive over the menu lattice in the model; quick replays singletons, pairs, the full set and a seeded "
+      "sample, thorough all 2048 subsets",
+      TB)
+claim("C09", "TLC model checking of spec/LikPool.tla (all schedules of <= 4 keys x <= 3 workers: FinalCache, EachKeyOnce, "
+      "NeverWrongRow; position-fill variant shown violating) and of the Hist machine of spec/Relational.tla (prior "
+      "reuse histories <= 4 calls) + replay of schedules into the real multiprocessing pool and of histories on one "
+      "real prior object + spec/LikPoolTrace.tla / RelationalTrace.tla validation of observed arrival orders (hook 2), "
+      "repeat / fresh-process (PYTHONHASHSEED) / num_threads identity on interned ids",
+      "every observed run decided by TLC; schedules exhaustive in the small scope",
+      TB)
